@@ -121,6 +121,11 @@ impl GarbageCollector {
     /// Returns an error if chunk deletion fails.
     #[allow(clippy::unused_async)]
     pub async fn full_gc(&self) -> Result<GcStats> {
+        // No upload may turn into a finished artifact between steps 1 and 2
+        let _gate = recount_gate()
+            .write()
+            .unwrap_or_else(std::sync::PoisonError::into_inner);
+
         // 1. Build reference set from all artifacts
         let mut referenced: HashSet<String> = HashSet::new();
 
@@ -138,6 +143,11 @@ impl GarbageCollector {
 
         for chunk_key in self.store.scan("_blob:chunk:") {
             if !referenced.contains(&chunk_key) {
+                // Chunks of an upload in progress are listed by no artifact yet
+                let _guard = lock_chunk(&chunk_key);
+                if pending_count(store_id(&self.store), &chunk_key) > 0 {
+                    continue;
+                }
                 if let Ok(tensor) = self.store.get(&chunk_key) {
                     let size =
                         usize::try_from(get_int(&tensor, "_size").unwrap_or(0).max(0)).unwrap_or(0);
@@ -214,6 +224,66 @@ pub fn increment_chunk_refs(store: &TensorStore, chunk_key: &str) -> Result<()> 
         store.put(chunk_key, tensor)?;
     }
     Ok(())
+}
+
+/// Chunks counted by uploads that are still open ((store, chunk key) -> number of such
+/// references). They are listed by no artifact yet, so a recount from the finished artifacts
+/// (`full_gc`, `repair`) must treat them as referenced.
+static PENDING_CHUNKS: std::sync::Mutex<Option<std::collections::HashMap<(usize, String), usize>>> =
+    std::sync::Mutex::new(None);
+
+/// Identity of the storage behind a `TensorStore` handle (clones share it). An open upload
+/// holds a handle, so the address stays valid while its references are registered.
+pub(crate) fn store_id(store: &TensorStore) -> usize {
+    std::ptr::from_ref(store.router()) as usize
+}
+
+/// `finish()` (shared) against a recount from the finished artifacts (exclusive): the recount
+/// reads the artifact list first and the chunks afterwards; an upload must not become a finished
+/// artifact in between.
+static RECOUNT_GATE: std::sync::RwLock<()> = std::sync::RwLock::new(());
+
+pub(crate) fn recount_gate() -> &'static std::sync::RwLock<()> {
+    &RECOUNT_GATE
+}
+
+/// Register one reference of an open upload to a chunk. Call with the chunk's lock held.
+pub(crate) fn pending_add(store: usize, chunk_key: &str) {
+    let mut guard = PENDING_CHUNKS
+        .lock()
+        .unwrap_or_else(std::sync::PoisonError::into_inner);
+    *guard
+        .get_or_insert_with(std::collections::HashMap::new)
+        .entry((store, chunk_key.to_string()))
+        .or_insert(0) += 1;
+}
+
+/// Drop the references of an upload that was finished (its artifact lists them now) or abandoned.
+pub(crate) fn pending_remove(store: usize, chunk_keys: &[String]) {
+    let mut guard = PENDING_CHUNKS
+        .lock()
+        .unwrap_or_else(std::sync::PoisonError::into_inner);
+    if let Some(map) = guard.as_mut() {
+        for key in chunk_keys {
+            let entry = (store, key.clone());
+            if let Some(n) = map.get_mut(&entry) {
+                *n -= 1;
+                if *n == 0 {
+                    map.remove(&entry);
+                }
+            }
+        }
+    }
+}
+
+/// References of open uploads to a chunk.
+pub(crate) fn pending_count(store: usize, chunk_key: &str) -> usize {
+    PENDING_CHUNKS
+        .lock()
+        .unwrap_or_else(std::sync::PoisonError::into_inner)
+        .as_ref()
+        .and_then(|m| m.get(&(store, chunk_key.to_string())).copied())
+        .unwrap_or(0)
 }
 
 /// Number of lock stripes for chunk records.
